@@ -120,3 +120,15 @@ CASES += [
       "        if self.current_tag is None:\n            flag_saved = self.current_dtype\n        else:\n            flag_saved = [self.current_dtype, self.current_tag]\n",
       "        flag_saved = self.current_dtype\n", 2),
 ]
+
+CASES += [
+    m("argument of an addition not checked for its shape (the repaired defect)", "C19-I",
+      "        if numpy.shape(data) != (self.xaxis.length, self.yaxis.length):\n            raise Exception(\"Data not consistent with spectrum axes\")\n\n        if not self.storage_initialized:",
+      "        if not self.storage_initialized:"),
+    m("argument of an addition checked against one axis only", "C19-I",
+      "        if numpy.shape(data) != (self.xaxis.length, self.yaxis.length):\n            raise Exception(\"Data not consistent with spectrum axes\")\n\n        if not self.storage_initialized:",
+      "        if numpy.shape(data)[0] != self.xaxis.length:\n            raise Exception(\"Data not consistent with spectrum axes\")\n\n        if not self.storage_initialized:"),
+    t("argument of an addition checked through its shape attribute",
+      "        if numpy.shape(data) != (self.xaxis.length, self.yaxis.length):\n            raise Exception(\"Data not consistent with spectrum axes\")\n\n        if not self.storage_initialized:",
+      "        if not (data.shape == (self.xaxis.length, self.yaxis.length)):\n            raise Exception(\"Data not consistent with spectrum axes\")\n\n        if not self.storage_initialized:"),
+]
